@@ -29,9 +29,10 @@ fn ss2022() -> [ss::Method; 4] {
     [ss::Method::B3Aes128Gcm, ss::Method::B3Aes256Gcm, ss::Method::B3ChaCha20Poly1305, ss::Method::B3ChaCha8Poly1305]
 }
 
-struct Cx<'a> {
-    rep: &'a mut Report,
-    seed: u64,
+pub struct Cx<'a> {
+    pub rep: &'a mut Report,
+    pub seed: u64,
+    pub prop: &'static str,
 }
 
 impl Cx<'_> {
@@ -41,7 +42,7 @@ impl Cx<'_> {
         self.rep.distinct.insert(crate::report::hash_of(&(what, proto, descr.to_string())));
         if want_accept != got_accept {
             let sym = if got_accept { "accepted-but-must-be-rejected" } else { "rejected-but-must-be-accepted" };
-            self.rep.violation(format!("C10|{}|{}|{}", what, proto, sym), format!("{} ({}): {}", what, proto, sym), json!({"seed": self.seed, "case": descr, "rule_says_accept": want_accept, "decoder_accepted": got_accept}));
+            self.rep.violation(format!("{}|{}|{}|{}", self.prop, what, proto, sym), format!("{} ({}): {}", what, proto, sym), json!({"seed": self.seed, "case": descr, "rule_says_accept": want_accept, "decoder_accepted": got_accept}));
         }
     }
 }
@@ -127,7 +128,7 @@ fn tcp_server_grid(cx: &mut Cx, rng: &mut Rng) {
 }
 
 /// T threads present the same valid request to T codecs sharing one context, released by a barrier.
-fn tcp_server_concurrent(cx: &mut Cx, rng: &mut Rng, rounds: usize) {
+pub fn tcp_server_concurrent(cx: &mut Cx, rng: &mut Rng, rounds: usize) {
     let mut winners_hist = std::collections::BTreeMap::new();
     for round in 0..rounds {
         let m = ss2022()[round % 4];
@@ -158,10 +159,10 @@ fn tcp_server_concurrent(cx: &mut Cx, rng: &mut Rng, rounds: usize) {
         cx.rep.mon("concurrent_replay_contests", 1);
         cx.rep.distinct.insert(crate::report::hash_of(&("contest", round)));
         if accepts > 1 {
-            cx.rep.violation(format!("C10|ss2022-tcp-replay-concurrent|{}|accepted-more-than-once", m.name()), "copies of one handshake presented concurrently were accepted more than once", json!({"seed": cx.seed, "round": round, "threads": t, "accepted": accepts}));
+            cx.rep.violation(format!("{}|ss2022-tcp-replay-concurrent|{}|accepted-more-than-once", cx.prop, m.name()), "copies of one handshake presented concurrently were accepted more than once", json!({"seed": cx.seed, "round": round, "threads": t, "accepted": accepts}));
         }
         if accepts == 0 {
-            cx.rep.violation(format!("C10|ss2022-tcp-replay-concurrent|{}|never-accepted", m.name()), "a valid handshake presented concurrently was accepted by nobody", json!({"seed": cx.seed, "round": round, "threads": t}));
+            cx.rep.violation(format!("{}|ss2022-tcp-replay-concurrent|{}|never-accepted", cx.prop, m.name()), "a valid handshake presented concurrently was accepted by nobody", json!({"seed": cx.seed, "round": round, "threads": t}));
         }
     }
     cx.rep.extra.insert("concurrent_contest_accept_histogram".into(), json!(winners_hist));
@@ -402,7 +403,7 @@ pub fn run(a: &Args) -> Report {
     let mut rep = Report::new();
     let mut rng = Rng::derive(a.seed, 0xC10, 0);
     {
-        let mut cx = Cx { rep: &mut rep, seed: a.seed };
+        let mut cx = Cx { rep: &mut rep, seed: a.seed, prop: "C10" };
         tcp_server_grid(&mut cx, &mut rng);
         tcp_client_grid(&mut cx, &mut rng);
         udp_grid(&mut cx, &mut rng);
